@@ -67,6 +67,9 @@ func runC12Cmd(c c12Cmd) error {
 		typ, buckets = "hist", spec
 	case "buckets+json":
 		typ, buckets = "json", spec
+	case "both":
+		// the same specification in -type=hist[...] and in -buckets: whatever takes precedence, these are the bounds
+		typ, buckets = "hist"+strings.ReplaceAll(spec, " ", ""), spec
 	}
 	out := filepath.Join(dir, "report")
 	var rerr error
@@ -146,7 +149,7 @@ func TestC12ReportCmd(t *testing.T) {
 			}
 		}
 		c.Lat = append(c.Lat, rapid.Int64Range(0, cur+1e9).Draw(t, "x"), 0)
-		c.Via = rapid.SampledFrom([]string{"hist[]", "buckets+hist", "buckets+json"}).Draw(t, "via")
+		c.Via = rapid.SampledFrom([]string{"hist[]", "buckets+hist", "buckets+json", "both"}).Draw(t, "via")
 		c.Spacing = rapid.SliceOfN(rapid.IntRange(0, 2), 1, 3).Draw(t, "spacing")
 		if c.Via == "hist[]" {
 			c.Spacing = []int{0} // the old notation is one shell word in -type
